@@ -130,7 +130,7 @@ fn em_tail(m: f64, b: Option<f64>, s: f64) -> f64 {
         }
         Some(b) => {
             let fb = (-s * b.ln()).exp();
-            let l = (b / m).ln();
+            let l = if b < 2.0 * m { ln_1p((b - m) / m) } else { (b / m).ln() };
             let u = (1.0 - s) * l;
             let g = if u.abs() < 1e-8 { 1.0 + 0.5 * u } else { exp_m1(u) / u };
             let integral = m * fm * l * g;
